@@ -306,6 +306,10 @@ type c11Plan struct {
 
 func (p *c11Plan) n() int { return len(p.kind) }
 
+func (p *c11Plan) truncate(n int) {
+	p.kind, p.pval, p.sc, p.ar = p.kind[:n], p.pval[:n], p.sc[:n], p.ar[:n]
+}
+
 func (p *c11Plan) param(c *Ctx) int {
 	k := byte('P')
 	if c.Rng.Intn(2) == 0 {
@@ -338,7 +342,7 @@ func (p *c11Plan) source(c *Ctx) int {
 func c11Shape(c *Ctx) *c11Plan {
 	p := &c11Plan{}
 	r := c.Rng
-	switch r.Intn(12) {
+	switch r.Intn(16) {
 	case 0: // a single node
 		p.shape = "single"
 		switch r.Intn(3) {
@@ -439,6 +443,80 @@ func c11Shape(c *Ctx) *c11Plan {
 				sc = append(sc, p.n()-1)
 			}
 			p.strct(sc)
+		}
+	case 9: // one long chain of 10-22 struct nodes over 1-2 parameters (N up to 24)
+		p.shape = "deep-chain"
+		a := p.param(c)
+		b := -1
+		if r.Intn(2) == 0 {
+			b = p.param(c)
+		}
+		prev := a
+		for n := 10 + r.Intn(13); n > 0; n-- {
+			switch {
+			case b >= 0 && r.Intn(6) == 0:
+				prev = p.strct([]int{prev, b})
+			case r.Intn(8) == 0:
+				prev = p.strct(nil, []int{prev})
+			default:
+				prev = p.strct([]int{prev})
+			}
+		}
+	case 10: // a ladder of diamonds as deep as the path cap allows
+		p.shape = "deep-ladder"
+		top := p.param(c)
+		for rungs := 4 + r.Intn(6); rungs > 0; rungs-- {
+			keep := p.n()
+			l := p.strct([]int{top})
+			rr := p.strct([]int{top})
+			t := -1
+			if r.Intn(4) == 0 {
+				t = p.strct(nil, []int{l, rr})
+			} else {
+				t = p.strct([]int{l, rr})
+			}
+			if c11Paths(p.sc, p.ar) > c11PathCap*2/3 { // leave room for re-wiring ops
+				p.truncate(keep)
+				break
+			}
+			top = t
+		}
+	case 11, 12: // one node with an array port of 4-6 distinct sources, struct nodes at different depths among them
+		p.shape = "wide-array"
+		a, b := p.param(c), p.param(c)
+		srcs := []int{a, b}
+		prev := a
+		for d := 2 + r.Intn(3); d > 0; d-- { // a chain over a: depths 1..d
+			prev = p.strct([]int{prev})
+			srcs = append(srcs, prev)
+		}
+		srcs = append(srcs, p.strct([]int{b}))
+		if r.Intn(2) == 0 {
+			srcs = append(srcs, p.strct([]int{a, b}))
+		}
+		r.Shuffle(len(srcs), func(i, j int) { srcs[i], srcs[j] = srcs[j], srcs[i] })
+		k := 4 + r.Intn(3)
+		if k > len(srcs) {
+			k = len(srcs)
+		}
+		xs := append([]int{}, srcs[:k]...)
+		var sc []int
+		if r.Intn(3) == 0 {
+			sc = []int{srcs[r.Intn(len(srcs))]}
+		}
+		w := -1
+		if r.Intn(2) == 0 { // second array port: 3-4 elements with a repeated source
+			ys := []int{srcs[r.Intn(len(srcs))], srcs[r.Intn(len(srcs))]}
+			ys = append(ys, ys[0])
+			if r.Intn(2) == 0 {
+				ys = append(ys, srcs[r.Intn(len(srcs))])
+			}
+			w = p.strct(sc, xs, ys)
+		} else {
+			w = p.strct(sc, xs)
+		}
+		if r.Intn(2) == 0 {
+			p.strct([]int{w})
 		}
 	default: // random dag
 		p.shape = "random"
@@ -781,6 +859,184 @@ func (cs *c11Case) freshVal() int {
 	return cs.fresh
 }
 
+// downstream: all nodes (i included) of which i is a reflexive-transitive dependency
+func (cs *c11Case) downstream(i int) []int {
+	sc, ar := cs.wiring()
+	var out []int
+	for j := range cs.nd {
+		if c11Reaches(sc, ar, j, i) {
+			out = append(out, j)
+		}
+	}
+	return out
+}
+
+// notDownstream: nodes whose evaluation does not touch i
+func (cs *c11Case) notDownstream(i int) []int {
+	sc, ar := cs.wiring()
+	var out []int
+	for j := range cs.nd {
+		if !c11Reaches(sc, ar, j, i) {
+			out = append(out, j)
+		}
+	}
+	return out
+}
+
+// dist: length of the shortest dependency path from -> to, -1 if there is none
+func (cs *c11Case) dist(from, to int) int {
+	d := make([]int, len(cs.nd))
+	for i := range d {
+		d[i] = -1
+	}
+	d[from] = 0
+	queue := []int{from}
+	for len(queue) > 0 {
+		i := queue[0]
+		queue = queue[1:]
+		if i == to {
+			return d[i]
+		}
+		visit := func(s int) {
+			if s >= 0 && d[s] < 0 {
+				d[s] = d[i] + 1
+				queue = append(queue, s)
+			}
+		}
+		for _, s := range cs.nd[i].sc {
+			visit(s)
+		}
+		for _, a := range cs.nd[i].ar {
+			for _, s := range a {
+				visit(s)
+			}
+		}
+	}
+	return -1
+}
+
+// scenario: a short scripted run of consecutive ops aimed at one mechanism (version bumps of the
+// two parameter kinds, State() of nodes that are stale for exactly one reason).  nil = the
+// current graph has no place for the drawn scenario.  watch = the node that must be observed Stale
+// after every op of the scenario but the first and the last (-1: none).
+func (cs *c11Case) scenario(params, strs []int) (ops []c11Op, watch int) {
+	r, c := cs.c.Rng, cs.c
+	rd := func(i int) c11Op { return c11Op{kind: "rd", a: i} }
+	sp := func(p, v int) c11Op { return c11Op{kind: "sp", a: p, b: v} }
+	pick := func(l []int) int { return l[r.Intn(len(l))] }
+	fillers := func(target int) []c11Op { // 2-4 ops that leave `target` alone (it is only observed)
+		cand := cs.notDownstream(target)
+		var out []c11Op
+		for k := 2 + r.Intn(3); k > 0 && len(cand) > 0; k-- {
+			out = append(out, rd(pick(cand)))
+		}
+		return out
+	}
+	if len(params) == 0 || len(strs) == 0 {
+		return nil, -1
+	}
+	which := r.Intn(6)
+	switch which {
+	case 0, 1, 2:
+		p := pick(params)
+		if which == 0 { // prefer a parameter that has something two levels above it
+			var deep []int
+			for _, q := range params {
+				for _, j := range strs {
+					if cs.dist(j, q) >= 2 {
+						deep = append(deep, q)
+						break
+					}
+				}
+			}
+			if len(deep) == 0 {
+				return nil, -1
+			}
+			p = pick(deep)
+		}
+		kind := string(cs.nd[p].kind)
+		var near, far []int
+		for _, j := range cs.downstream(p) {
+			if j == p {
+				continue
+			}
+			near = append(near, j)
+			if cs.dist(j, p) >= 2 {
+				far = append(far, j)
+			}
+		}
+		var seq []c11Op
+		switch which {
+		case 0: // Set, then IMMEDIATELY a read two or more levels above
+			if len(far) == 0 {
+				return nil, -1
+			}
+			j := pick(far)
+			if r.Intn(2) == 0 {
+				seq = append(seq, rd(j))
+			}
+			c.Note("sp.then-read-far." + kind)
+			return append(seq, sp(p, cs.freshVal()), rd(j)), -1
+		case 1: // two Sets with no read in between: the remembered version is 2 behind
+			if len(near) == 0 {
+				return nil, -1
+			}
+			j := pick(near)
+			if r.Intn(10) < 7 {
+				seq = append(seq, rd(j))
+			}
+			c.Note("sp.double-set-then-read." + kind)
+			return append(seq, sp(p, cs.freshVal()), sp(p, cs.freshVal()), rd(j)), -1
+		default: // Set of the value the parameter already has, then a read: only the version moved
+			if len(near) == 0 {
+				return nil, -1
+			}
+			j := pick(near)
+			if r.Intn(10) < 7 {
+				seq = append(seq, rd(j))
+			}
+			c.Note("sp.same-value-then-read." + kind)
+			c.Note("sp.same-value")
+			return append(seq, sp(p, cs.nd[p].pval), rd(j)), -1
+		}
+	case 3: // Stale only because of the flag: re-wired to what it had, nothing else changed
+		var cand []int
+		for _, j := range strs {
+			if len(cs.nd[j].sc) > 0 {
+				cand = append(cand, j)
+			}
+		}
+		if len(cand) == 0 {
+			return nil, -1
+		}
+		j := pick(cand)
+		k := r.Intn(len(cs.nd[j].sc))
+		seq := []c11Op{rd(j), {"si", j, k, cs.nd[j].sc[k]}}
+		seq = append(seq, fillers(j)...)
+		c.Note("state.flag-only-stale-observed")
+		return append(seq, rd(j)), j
+	default: // Stale only because a dependency two or more levels down is stale (versions all equal)
+		var cand [][2]int
+		for _, j := range strs {
+			for _, d := range strs {
+				if len(cs.nd[d].sc) > 0 && d != j && cs.dist(j, d) >= 2 {
+					cand = append(cand, [2]int{j, d})
+				}
+			}
+		}
+		if len(cand) == 0 {
+			return nil, -1
+		}
+		jd := cand[r.Intn(len(cand))]
+		j, d := jd[0], jd[1]
+		k := r.Intn(len(cs.nd[d].sc))
+		seq := []c11Op{rd(j), {"si", d, k, cs.nd[d].sc[k]}}
+		seq = append(seq, fillers(d)...)
+		c.Note("state.deep-dependency-stale-observed")
+		return append(seq, rd(j)), j
+	}
+}
+
 func c11History(c *Ctx, deporder bool) {
 	r := c.Rng
 	var plan *c11Plan
@@ -895,13 +1151,32 @@ func c11History(c *Ctx, deporder bool) {
 	var ans strings.Builder
 	rewired := -1 // node rewired by the previous op
 	sawRewire, readAfterRewire := false, false
-	for len(ops) < M {
+	var forced []c11Op // the rest of a scenario: consecutive ops, nothing in between
+	watch, forcedIdx := -1, 0
+	for len(ops) < M || len(forced) > 0 {
 		var o c11Op
 		pick := r.Intn(100)
+		if len(forced) == 0 && M >= 5 && r.Intn(100) < 6 {
+			forced, watch = cs.scenario(params, strs)
+			forcedIdx = 0
+			if len(forced) > 0 {
+				c.Note("hist.scenario")
+			}
+		}
+		isForced := len(forced) > 0
 		switch {
+		case isForced:
+			o = forced[0]
+			forced = forced[1:]
 		case rewired >= 0 && r.Intn(2) == 0:
 			// read at or downstream of the node that was just rewired
-			o = c11Op{kind: "rd", a: rewired + r.Intn(N-rewired)}
+			ds := cs.downstream(rewired)
+			o = c11Op{kind: "rd", a: ds[r.Intn(len(ds))]}
+			if o.a != rewired {
+				c.Note("rd.downstream-of-rewired")
+			} else {
+				c.Note("rd.the-rewired-node")
+			}
 		case pick < 3:
 			o = cs.badOp(params, strs)
 		case pick < 3+22 && len(pending) > 0:
@@ -962,22 +1237,44 @@ func c11History(c *Ctx, deporder bool) {
 				continue
 			}
 			o = c11Op{"aa", i, k, src}
-		case pick < 58 && len(strs) > 0:
-			i := strs[r.Intn(len(strs))]
-			n := cs.nd[i]
-			if len(n.ar) == 0 {
+		case pick < 62 && len(strs) > 0:
+			// remove an array element, index uniform; mostly from an array of 3 or more elements
+			var long, any [][2]int
+			for _, i := range strs {
+				for k, a := range cs.nd[i].ar {
+					if len(a) >= 3 {
+						long = append(long, [2]int{i, k})
+					}
+					if len(a) >= 1 {
+						any = append(any, [2]int{i, k})
+					}
+				}
+			}
+			if len(long) > 0 && r.Intn(10) < 7 {
+				any = long
+			}
+			if len(any) == 0 {
 				continue
 			}
-			k := r.Intn(len(n.ar))
-			if len(n.ar[k]) == 0 {
-				continue
+			ik := any[r.Intn(len(any))]
+			a := cs.nd[ik[0]].ar[ik[1]]
+			o = c11Op{"ar", ik[0], ik[1], r.Intn(len(a))}
+			if r.Intn(10) < 6 {
+				// ... and add to the same array again later (the removed source or any other)
+				src := a[o.d]
+				if r.Intn(3) == 0 {
+					if j := cs.anySrc(ik[0]); j >= 0 {
+						src = j
+					}
+				}
+				pending = append(pending, c11Op{"aa", ik[0], ik[1], src})
+				c.Note("ar.with-aa-again-later")
 			}
-			o = c11Op{"ar", i, k, r.Intn(len(n.ar[k]))}
 		default:
 			o = c11Op{kind: "rd", a: r.Intn(N)}
 		}
 		// never a cycle, never an unbounded number of dependency paths
-		if (o.kind == "si" || o.kind == "aa") && o.d >= 0 && cs.nd[o.a].kind == 'S' {
+		if !isForced && (o.kind == "si" || o.kind == "aa") && o.d >= 0 && cs.nd[o.a].kind == 'S' {
 			sc0, ar0 := cs.wiring()
 			if o.d == o.a || c11Reaches(sc0, ar0, o.d, o.a) {
 				// smaller id no longer implies "does not depend on me" once the order has changed
@@ -989,7 +1286,7 @@ func c11History(c *Ctx, deporder bool) {
 				c.Note("gen.cycle-avoided")
 			}
 		}
-		if (o.kind == "si" && o.d >= 0 && o.b < len(cs.nd[o.a].sc)) || (o.kind == "aa" && o.b < len(cs.nd[o.a].ar)) {
+		if !isForced && ((o.kind == "si" && o.d >= 0 && o.b < len(cs.nd[o.a].sc)) || (o.kind == "aa" && o.b < len(cs.nd[o.a].ar))) {
 			sc, ar := cs.wiring()
 			if o.kind == "si" {
 				sc[o.a][o.b] = o.d
@@ -1033,6 +1330,50 @@ func c11History(c *Ctx, deporder bool) {
 						break
 					}
 				}
+				c.Note("aa." + c11ArrName[o.b])
+			}
+		case "ar":
+			if n.kind == 'S' && o.b < len(n.ar) && o.d < len(n.ar[o.b]) {
+				a := n.ar[o.b]
+				c.Note("ar." + c11ArrName[o.b])
+				switch {
+				case len(a) == 1:
+					c.Note("ar.empties-array")
+				case o.d == 0:
+					c.Note("ar.first")
+				case o.d == len(a)-1:
+					c.Note("ar.last")
+				default:
+					c.Note("ar.middle")
+				}
+				if len(a) >= 3 {
+					c.Note("ar.from-array-of-3+")
+				}
+				for k, s := range a {
+					if k != o.d && s == a[o.d] {
+						c.Note("ar.one-copy-of-a-repeated-source")
+						break
+					}
+				}
+				staleRemoved, staleOther := false, false
+				for k, s := range a {
+					if cs.nd[s].kind == 'S' && cs.nd[s].node.State() == nodes.Stale {
+						if k == o.d {
+							staleRemoved = true
+						} else {
+							staleOther = true
+						}
+					}
+				}
+				if staleRemoved {
+					c.Note("ar.removed-source-is-stale-struct")
+				}
+				if staleOther {
+					c.Note("ar.remaining-source-is-stale-struct")
+				}
+				if n.node.State() == nodes.Processed {
+					c.Note("ar.on-processed-node")
+				}
 			}
 		case "rd":
 			if n.kind != 'S' {
@@ -1062,6 +1403,16 @@ func c11History(c *Ctx, deporder bool) {
 		ok, execs := cs.exec(o, &ans)
 		ops = append(ops, o.String())
 		c.Note("op." + o.kind)
+		if isForced {
+			if watch >= 0 && forcedIdx >= 1 && len(forced) > 0 {
+				if cs.nd[watch].node.State() == nodes.Stale {
+					c.Note("state.observed-stale-while-untouched")
+				} else {
+					c.Note("state.SCENARIO-NODE-NOT-STALE")
+				}
+			}
+			forcedIdx++
+		}
 		if !ok {
 			c.Note("op.panic")
 			c.Note("panic." + o.kind)
